@@ -49,6 +49,10 @@ RR_SCRIPTS = {
     # with a COMPLETE component
     'rr-symlink-boundaries': (dict(rock_ridge='1.09'), [('file', '/FOO.;1', 'foo', None, 4), ('symlink', '/SYM.;1', 'sym', 'a' * 128 + '/' + 'b' * 120 + '/ccc')] +
                               [('symlink', '/S%03d.;1' % k, 's%03d' % k, 'a' * k + '/' + 'b' * 120 + '/ccc') for k in range(120, 137)]),
+    # relocated directories whose Rock Ridge names need continuation areas: the CL placeholder and the real directory (K56, K57)
+    'deep-rr-long-names': (dict(rock_ridge='1.09'), [('dir', p, p.rsplit('/', 1)[1].lower(), None) for p in DEEP[:7]] +
+                           [('dir', DEEP[7], 'eighth-' + 'n' * 200, None), ('file', DEEP[7] + '/X.;1', 'x' * 180, None, 3), ('dir', DEEP[7] + '/D9', 'ninth-' + 'm' * 210, None),
+                            ('symlink', DEEP[6] + '/S.;1', 's' * 200, 'a/' + 'b' * 100), ('dir', DEEP[6] + '/E8', 'e-' + 'q' * 190, None), ('file', DEEP[6] + '/E8/Y.;1', 'y', None, 4)]),
     'deep-rr-112': (dict(rock_ridge='1.12'), [('dir', p, p.rsplit('/', 1)[1].lower() + '-' + 'l' * 40 * (i % 3), None) for i, p in enumerate(DEEP)] +
                     [('dir', DEEP[-1] + '/D9', 'd9', None), ('file', DEEP[-1] + '/D9/X.;1', 'x' * 200, None, 3), ('file', DEEP[-1] + '/Y.;1', 'y', None, 4),
                      ('dir', '/D1/D2/D3/D4/D5/D6/D7/E8', 'e8', None), ('file', '/D1/D2/D3/D4/D5/D6/D7/E8/Z.;1', 'z', None, 5)]),
@@ -117,7 +121,8 @@ def random_script(flavour, seed, nops=28):
         alphabet = ['a', 'B', ' ', '\u00e9', '\u65e5', '.', '-']
         n = rnd.choice([1, 7, 40, 64]) if rnd.random() < 0.3 else rnd.randint(1, 15)
         tail = ''.join(rnd.choice(alphabet) for _ in range(n))
-        name = ('j%d' % k + tail)[:max(1, min(64, n + 2))]
+        prefix = 'j%d' % k                       # the counter keeps generated names distinct: never cut into it
+        name = (prefix + tail)[:max(len(prefix), min(64, n + len(prefix)))]
         while len(name.encode('utf-8')) > 64:      # the library's limit is 64 UTF-8 bytes
             name = name[:-1]
         return name.rstrip(' .') or 'j%d' % k
@@ -429,9 +434,9 @@ class Mastered(Base):
             for p, v in iso_m.items():
                 e = rrt.get(rr_path(p))
                 if e is not None and v[0] == 'file':
-                    tree_for_content[p.encode()] = ('file', e['extents'], e['length'], False)
+                    tree_for_content[p.encode()] = ('file', e['extents'], e['length'], e.get('hidden', False))
                 elif e is not None:
-                    tree_for_content[p.encode()] = ('dir', False)
+                    tree_for_content[p.encode()] = ('dir', e.get('hidden', False))
             if relocating:
                 tree = tree_for_content
         content_ok = []
